@@ -183,12 +183,15 @@ def make_scenarios(rng, tier, seed):
             n = rng.randrange(NFFT // 2 + 1, NFFT + 2)       # at most one segment, zero padded
         if n > 256:
             # long records: the model's segment FFT is the naive O(NFFT^2) sum (array-backed reads), so keep the
-            # number of segments of a long record near 120 and the number of long records per run bounded
+            # number of segments of a long record near 60 and the number of long records per run bounded (the twiddle factors are recomputed per term)
             n_long += 1
-            if n_long > 24:
+            if n_long > 10:
                 n = rng.choice([128, 200, 256])
             else:
-                min_step = min(NFFT, (n - NFFT) // 120 + 1)
+                nch = min(nch, 4)
+                min_step = min(NFFT, (n - NFFT) // 60 + 1)
+                if nov is None and NFFT - NFFT // 2 < min_step:
+                    nov = NFFT // 2
                 if nov is not None and NFFT - nov < min_step:
                     nov = NFFT - min_step
         wk = rng.choice(['hann', 'hann', 'hamming', 'boxcar', 'rand'])
